@@ -209,12 +209,12 @@ func groupsFor(member string) []string {
 }
 
 func (x *run) cacheKey() groups.CacheKey {
-	return groups.CacheKey{Email: userMail, AllowedGroups: ps.AllowedGroup}
+	return x.w.A.CacheKeys.Find(userMail, ps.AllowedGroup)
 }
 
 // gc observes the authenticator's cache entry.
 func (x *run) gc() string {
-	e, ok := x.w.A.GroupCache.VerifCache().Get(x.cacheKey())
+	e, ok := x.w.A.CacheKeys.Get(x.cacheKey())
 	if !ok {
 		return "empty"
 	}
@@ -465,7 +465,7 @@ func (x *run) shift(d int) error {
 // Replay runs one behaviour and returns its lines.
 func (w *World) Replay(no, base int, b Beh, r *rand.Rand) ([]Line, error) {
 	x := &run{w: w, pol: b.Pol, host: ps.HostFor(b.Pol), idp: Idp{Fam: "live", Avail: "up", Member: "yes"}, r: r}
-	w.A.GroupCache.VerifCache().Purge(x.cacheKey())
+	w.A.CacheKeys.Purge(x.cacheKey())
 	var lines []Line
 	n := base
 	add := func(l Line) { l.Case = n; n++; lines = append(lines, l) }
@@ -526,7 +526,7 @@ func (w *World) Replay(no, base int, b Beh, r *rand.Rand) ([]Line, error) {
 			}
 			add(Line{Ev: "env", What: e.What, To: e.To})
 		case "expire":
-			w.A.GroupCache.VerifCache().Purge(x.cacheKey())
+			w.A.CacheKeys.Purge(x.cacheKey())
 			add(Line{Ev: "expire"})
 		default:
 			return nil, fmt.Errorf("unknown event %q", e.Ev)
